@@ -28,7 +28,7 @@ TOTAL_HERE = {
     ('utils:Utils.to_text', 'UnicodeDecodeError', 'v.decode(enc)'): 'only reached for bytes; every caller on the audit path passes str (names produced by decode(..., "replace"))',
     ('utils:Utils.ctoi', 'TypeError', 'ord(c[0])'): 'c is a character obtained by iterating a str (non-empty)',
     ('fingerprint:Fingerprint.sha256', 'UnicodeDecodeError', "h.decode('ascii')"): 'base64 output is ASCII',
-    ('banner:Banner.parse', 'ValueError', 'min(re.findall('): 'group 1 matched _RXP at least once, so findall is non-empty',
+    ('banner:Banner.parse', 'ValueError', 'protocol = min('): 'applied to RX_PROTOCOL matches of (a part of) a string that matched RX_BANNER, which contains the version prefix, so the sequence is non-empty',
     ('banner:Banner.parse', 'ValueError', 'int(protocol['): 'RX_PROTOCOL groups are digit runs',
     ('ssh1_crc32:SSH1_CRC32.calc', 'TypeError', 'ord(v[i:i + 1])'): 'i ranges over range(len(v)), so the slice has one byte',
     ('readbuf:ReadBuf.read_mpint2', 'TypeError', 'ord(v[0:1])'): 'dominated by the len(v) == 0 early return',
